@@ -159,7 +159,7 @@ def _cfg_fire(tier):
 @harness('C15.fire', 'C15', configs=_cfg_fire, functions=FUNCS, cost=12, engine_opts={'div_check': False, 'nl_axioms_in_feasibility': False},
          must_reach=['check:flagged_rows_match_crossings', 'check:zeros_accessor', 'zero_up_row', 'zero_down_row', 'mach_row'],
          bounds='carriers A (sight above / below bore, level and +20 deg sight line), B (Mach crossing; cross wind and a 30 mph head wind) with coarse steps, horizon K <= 12 / 24 steps; '
-                'symbolic range R and record step S >= max step (cells of the (R, S) plane)',
+                'symbolic range R and record step S >= max step (cells of the (R, S) plane); the calculator has served another (supersonic) shot just before; the events-only request (record step 0) repeats the events',
          outside=['shots other than the carriers (the filter harness covers arbitrary point sequences)'])
 def c15_fire(ctx, carrier, step_ft, kw, wind, rlo, rhi):
     p = pybc()
@@ -168,6 +168,11 @@ def c15_fire(ctx, carrier, step_ft, kw, wind, rlo, rhi):
     calc, shot = carriers.make(carrier, step_ft, wind, **kw)
     R = ctx.real('range_ft', rlo, rhi)
     S = ctx.real('record_step_ft', step_ft, max(rhi, step_ft))
+    # the calculator has just served ANOTHER shot (supersonic flat fire that ends supersonic; with and without extra data):
+    # the events of this shot are found from this shot's trajectory alone
+    _, other = carriers.make('A', step_ft, 'none')
+    calc.fire(other, U.Foot(3 * step_ft), U.Foot(step_ft), True)
+    calc.fire(other, U.Foot(2 * step_ft), U.Foot(step_ft))
     with carriers.spy_filter() as spy:
         res = calc.fire(shot, U.Foot(R), U.Foot(S), True)
     rows = res.trajectory
@@ -220,6 +225,11 @@ def c15_fire(ctx, carrier, step_ft, kw, wind, rlo, rhi):
             i = [j for j in mach_at][0] if len(mach_at) == 1 else None
             if i is not None:
                 ctx.check('mach_row_within_one_step', (r.mach <= mach[i - 1] + 1e-12) & (r.mach >= mach[i] - 1e-12))
+    # the events-only request (no range step, no time step, extra data) through the engine's own entry point: exactly the event rows
+    ev_rows = calc._calc.trajectory(shot, U.Foot(R), U.Foot(0.0), True)
+    ev = [r for r in ev_rows if r.flag & (TF.ZERO | TF.MACH)]
+    ctx.check('each_event_once', sum(1 for r in ev if r.flag & TF.ZERO_UP) == n_up and sum(1 for r in ev if r.flag & TF.ZERO_DOWN) == n_down
+              and sum(1 for r in ev if r.flag & TF.MACH) == n_mach, info={'request': 'events only (record step 0)', 'rows': len(ev_rows), 'event_rows': len(ev)})
     # accessor
     try:
         z = res.zeros()
